@@ -132,9 +132,15 @@ def deductive(run: Run, sidecar: str, both: bool, enroll: bool) -> dict[str, Any
     by_solver: dict[str, int] = {}
     failing: list[tuple[str, dict[str, Any]]] = []
     missing: list[str] = []
+    def operation_bound(cid: str) -> bool:
+        """safety obligations attached to one operation of the code (a division, a subscript, a call's precondition, a float
+        range): when the operation is no longer there, there is nothing to prove - unlike contract clauses, which must always be generated"""
+        cl = cid.split("/", 1)[1] if "/" in cid else cid
+        return cl.startswith(("no_raise.", "call:", "float_range@", "datetime.")) or ".use:" in cl or cl.startswith("assert@")
     for cid in enrolled:
         if cid not in clauses:
-            missing.append(cid)
+            if not operation_bound(cid):
+                missing.append(cid)
             continue
         d = clauses[cid]
         obligations += d["vcs"]
